@@ -174,3 +174,76 @@ def split_obs(obs):
         g = m.groups()
         return ("ERR", g[0], g[1], tuple(map(int, g[2:5])), tuple(map(int, g[5:8])), g[8])
     return (obs.split(" ")[0],)
+
+
+# ------------------------------------------------------------------ numeric literal oracles
+I64_MIN, I64_MAX = -2 ** 63, 2 ** 63 - 1
+
+
+def hx(b):
+    return b.hex() if b else "-"
+
+
+def expect_int_literal(text, clj, exp):
+    """expected dump (no range) of an integer-family literal, from Python integer arithmetic"""
+    t = text
+    neg = t.startswith("-")
+    if t[0] in "+-":
+        t = t[1:]
+    clean = (lambda s: s.replace("_", "")) if exp else (lambda s: s)
+    if "/" in t:
+        n, d = t.split("/")
+        nv, dv = int(clean(n)), int(clean(d))
+        sv = -nv if neg else nv
+        if nv == 0:
+            return "int:0"          # 0/d is the integer 0 whatever the size of d
+        if I64_MIN <= sv <= I64_MAX and dv <= I64_MAX:
+            import math
+            g = math.gcd(abs(sv), dv)
+            a, b = (sv // g, dv // g) if g > 1 else (sv, dv)
+            if g > 1:
+                a = int(sv / g) if False else (abs(sv) // g) * (-1 if sv < 0 else 1)
+            if a == 0:
+                return "int:0"
+            if b == 1:
+                return "int:%d" % a
+            return "ratio:%d/%d" % (a, b)
+        if dv <= I64_MAX and dv == 1:
+            return "bigint:%d:10:%s" % (int(neg), hx(n.encode()))
+        return "bigratio:%d:%s/%s" % (int(neg), hx(n.encode()), hx(d.encode()))
+    suffix = ""
+    radix = 10
+    digits = t
+    is_radix = clj and "r" in t.lower() and not t.lower().startswith("0x")
+    if is_radix:
+        rdx = int(t[:t.lower().index("r")])
+        # in NrDDD notation N is never a suffix, and M only when it is not a digit of the radix
+        if t[-1] == "M" and rdx <= 22:
+            suffix, digits = "M", t[:-1]
+    elif t[-1] in "NM":
+        suffix, digits = t[-1], t[:-1]
+    if clj and digits.lower().startswith("0x"):
+        radix, digits = 16, digits[2:]
+    elif clj and "r" in digits.lower():
+        i = digits.lower().index("r")
+        radix, digits = int(digits[:i]), digits[i + 1:]
+    elif clj and len(digits) > 1 and digits[0] == "0":
+        radix = 8
+    shown = clean(digits).encode()
+    if suffix == "M":
+        return "bigdec:%d:%s" % (int(neg), hx(shown))
+    if suffix == "N":
+        return "bigint:%d:%d:%s" % (int(neg), radix, hx(shown))
+    v = int(clean(digits), radix)
+    sv = -v if neg else v
+    if I64_MIN <= sv <= I64_MAX:
+        return "int:%d" % sv
+    return "bigint:%d:%d:%s" % (int(neg), radix, hx(shown))
+
+
+def expect_int64(digits, radix, neg, exp):
+    s = digits.replace("_", "") if exp else digits
+    v = int(s, radix) if s else 0
+    if neg:
+        return "OK %d" % (-v) if v <= 2 ** 63 else "OVERFLOW"
+    return "OK %d" % v if v <= I64_MAX else "OVERFLOW"
